@@ -54,6 +54,8 @@ const double GUARD = 2e-8;     // roots this close to the start of a continuous 
 const double YTOL = 1e-10;     // relative slack for "state lies on the analytic trajectory"
 const double CPTOL = 1e-2;     // CPodes: additional slack as a fraction of the requested accuracy
 const size_t CALLCAP = 3000;   // handler-call runaway guard
+const long EVALCAP = 500000;   // derivative-evaluation budget per case (normal cases need < 1e4): turns a library
+                               // loop that keeps evaluating the system into an exception instead of a hang
 
 // ------------------------------------------------------------------ parameters of one generated system
 struct Par {
@@ -145,6 +147,8 @@ struct Shared {
     EvGuts* guts = nullptr;
     bool runaway = false;
     int dispatch = 0;              // incremented by the driver whenever it knows a new dispatch starts
+    long evals = 0;                // derivative evaluations in this case (library-hang guard, no wall clock)
+    bool budgetExceeded = false;
 };
 
 // ------------------------------------------------------------------ the System
@@ -176,6 +180,7 @@ struct EvGuts : public System::Guts {
     }
     int realizeAccelerationImpl(const State& s) const override {
         const Par& P = S->P;
+        if (++S->evals > EVALCAP) { S->budgetExceeded = true; throw std::runtime_error("C22 harness: derivative evaluation budget exceeded"); }
         const Real r = getMu(s) * getNu(s);
         s.updUDot(sub)[0] = P.a * r;
         s.updQDotDot(sub)[0] = P.a * r;
@@ -360,7 +365,8 @@ bool exactComp(const Par& P, int comp, bool qx) {
 // Witnesses whose crossings are known in closed form. Where the integrator does not reproduce the
 // trajectory exactly (q for first-order methods, everything for CPodes up to its tolerance) the measured
 // deviation of the observed states from the analytic trajectory widens the time slack (see tslack()).
-bool exactWit(const Par&, const Wit& w, bool) { return w.kind != WOsc; }
+// (q under a first-order method or CPodes may not cross where the analytic parabola does: generic.)
+bool exactWit(const Par&, const Wit& w, bool qx) { return w.kind != WOsc && (w.kind != WQuad || qx); }
 double flow(const Par& P, const Traj& T, int comp, double t) {
     const double dt = t - T.ts, r = T.mu * T.nu;
     if (comp == IQ) return T.y[IQ] + T.y[IU] * dt + 0.5 * P.a * r * dt * dt;
@@ -520,7 +526,7 @@ struct Judge {
         for (int comp = 0; comp < IZ + S.P.nzl; ++comp) {
             if (!exactComp(S.P, comp, qx)) continue;
             double ref = flow(S.P, T, comp, t), tol = ytol(T, comp, t);
-            c.check("traj:" + what + ":" + tag, std::fabs(y[comp] - ref), tol, [&] {
+            c.check((isCPodes(sc.ik) ? "trajcp:" : "traj:") + what + ":" + tag, std::fabs(y[comp] - ref), tol, [&] {
                 return Json::obj().set("scen", sc.str()).set("comp", comp).set("t", t).set("got", y[comp]).set("expected", ref).set("segStart", T.ts).set("mu", T.mu).set("nu", T.nu);
             });
         }
@@ -580,13 +586,22 @@ struct Judge {
         std::vector<Root> roots;
         std::vector<std::pair<double, double>> trigWins;   // (tHigh, width bound) of every triggered dispatch
         bool terminated = false; double tTerm = Infinity;
-        double lastT = -Infinity;
+        double lastT = -Infinity, lastRepT = -Infinity, lastWg = 0;
         size_t i = 0;
-        const std::string nsub = sc.twoSubsystems ? ":subsys=2" : ":subsys=1";
+        const std::string nsub = sc.twoSubsystems ? "two-subsystems-own-scheduled-events" : "";
         while (i < L.size()) {
             const Rec& r0 = L[i];
-            c.require("order:handler-calls-nondecreasing-time:" + tag, r0.t >= lastT, [&] { return Json::obj().set("scen", sc.str()).set("t", r0.t).set("prev", lastT).set("handler", hkey(r0.h)); });
-            lastT = std::max(lastT, r0.t);
+            {
+                // handlers (and triggered reporters) are called in non-decreasing time order. A scheduled
+                // report may be served from inside the localisation window of an event whose handlers
+                // changed nothing, i.e. up to one window before that event's tHigh (by design: the
+                // interpolated trajectory through the window is still valid then).
+                const HKind kk = S.hs[r0.h].kind;
+                const bool rp = (kk == HSchedRep || kk == HPerRep);
+                const double lim = rp ? std::max(lastRepT, lastT - lastWg - DT) : lastT;
+                c.require(std::string("order:calls-nondecreasing-time:") + (rp ? "reporter:" : "handler:") + tag, r0.t >= lim, [&] { return Json::obj().set("scen", sc.str()).set("t", r0.t).set("prevHandlerTime", lastT).set("prevReportTime", lastRepT).set("window", lastWg).set("handler", hkey(r0.h)); });
+                if (rp) lastRepT = std::max(lastRepT, r0.t); else lastT = std::max(lastT, r0.t);
+            }
             if (terminated && r0.t > tTerm)
                 c.viol("terminate:handler-called-after-termination:" + hkey(r0.h), Json::obj().set("scen", sc.str()).set("t", r0.t).set("tTerm", tTerm));
             const HKind k0 = S.hs[r0.h].kind;
@@ -607,7 +622,7 @@ struct Judge {
             // (b) handlers of one dispatch chain on one State
             for (size_t k = i + 1; k < j; ++k) {
                 bool same = L[k].yin == L[k - 1].yout && L[k].muIn == L[k - 1].muOut && L[k].nuIn == L[k - 1].nuOut;
-                c.require("chain:next-handler-sees-previous-output:" + tag, same, [&] { return Json::obj().set("scen", sc.str()).set("t", tG).set("prev", hkey(L[k - 1].h)).set("next", hkey(L[k].h)).set("prevOut", jvec(L[k - 1].yout)).set("nextIn", jvec(L[k].yin)); });
+                c.require("continue:state-changed-without-integration:" + tag, same, [&] { return Json::obj().set("scen", sc.str()).set("t", tG).set("prev", hkey(L[k - 1].h)).set("next", hkey(L[k].h)).set("prevOut", jvec(L[k - 1].yout)).set("nextIn", jvec(L[k].yin)); });
             }
             // (c) triggered calls: once per group, justified by a monitored crossing inside the window
             std::set<int> calledTrig;
@@ -646,6 +661,7 @@ struct Judge {
             // (d) no exactly known crossing was skipped / left uncalled before this group
             missing(seg, tG, r0.yin, Wg, calledTrig, "before-dispatch");
             if (anyTrig) trigWins.push_back({tG, Wg});
+            lastWg = anyTrig ? Wg : 0;
             // (e) timed handlers: only at their scheduled times, once each
             for (size_t k = i; k < j; ++k) {
                 const HSpec& H = S.hs[L[k].h];
@@ -686,7 +702,7 @@ struct Judge {
                 if (isReporter(H.kind)) for (auto& tw : trigWins) inWindow |= (x > tw.first - tw.second - DT && x <= tw.first);
                 if (inWindow) { c.obs("scheduled-report-inside-event-window-dropped"); continue; }
                 bool ok = seenTimes[h].count(x) > 0;
-                c.require(std::string("sched:scheduled-time-not-served:") + hkName(H.kind) + nsub, ok, [&] { return Json::obj().set("scen", sc.str()).set("time", x).set("tStop", tStop).set("handler", (long)h).set("terminated", terminated).set("served", jvec(std::vector<double>(seenTimes[h].begin(), seenTimes[h].end()))); });
+                c.require(std::string("sched:scheduled-time-not-served:") + hkName(H.kind), ok, [&] { return Json::obj().set("scen", sc.str()).set("time", x).set("tStop", tStop).set("handler", (long)h).set("terminated", terminated).set("served", jvec(std::vector<double>(seenTimes[h].begin(), seenTimes[h].end()))); });
             }
             if (!exp.empty() || !seenTimes[h].empty()) c.cover(coverKey((int)h));
         }
@@ -696,11 +712,11 @@ struct Judge {
         bool sched;
         if (H.kind == HPer || H.kind == HPerRep) { long long k = std::llround(t / H.period); sched = ((double)k * H.period == t); }
         else sched = std::find(H.times.begin(), H.times.end(), t) != H.times.end();
-        c.require(std::string("sched:called-at-unscheduled-time:") + hkName(H.kind) + nsub, sched, [&] {
+        c.require(std::string("sched:called-at-unscheduled-time:") + (nsub.empty() ? std::string(hkName(H.kind)) : nsub), sched, [&] {
             return Json::obj().set("scen", sc.str()).set("tCall", t).set("times", jvec(H.times)).set("period", H.period).set("handler", h);
         });
         bool fresh = seenTimes[h].insert(t).second;
-        c.require(std::string("sched:called-twice-at-one-time:") + hkName(H.kind) + nsub, fresh, [&] { return Json::obj().set("scen", sc.str()).set("tCall", t).set("handler", h); });
+        c.require(std::string("sched:called-twice-at-one-time:") + hkName(H.kind), fresh, [&] { return Json::obj().set("scen", sc.str()).set("tCall", t).set("handler", h); });
     }
     // crossings that had to be reported on segment seg before time tG (window Wg of the dispatch at tG, 0 if none)
     void missing(const Traj& seg, double tG, const std::vector<double>& yObs, double Wg, const std::set<int>& called, const char* where) {
@@ -926,6 +942,7 @@ void runManual(Ctx& c, Scen& sc, Built& B) {
     long iters = 0, stall = 0; double lastTime = -Infinity;
     int nEvents = 0;
     bool over = false, pendingStartCheck = false; std::vector<double> yAfterHandlers;
+    double unmodifiedEventAt = NaN;
     std::vector<Root> roots;
     HandleEventsOptions hopts(integ.getConstraintToleranceInUse());
 
@@ -942,7 +959,11 @@ void runManual(Ctx& c, Scen& sc, Built& B) {
         Integrator::SuccessfulStepStatus st;
         try { st = integ.stepTo(tRep, tSch); }
         catch (const std::exception& e) {
-            c.viol("exception:stepTo:" + tag + ":" + normMsg(e.what()), Json::obj().set("scen", sc.str()).set("what", firstLine(e.what(), 500)).set("t", integ.getAdvancedTime()));
+            Json w = Json::obj().set("scen", sc.str()).set("what", firstLine(e.what(), 500)).set("t", integ.getAdvancedTime()).set("evals", S.evals).set("segStart", seg.ts);
+            if (S.budgetExceeded) {
+                bool zr = false; for (auto& wt : S.wits) zr |= (wt.eval(seg.ts, seg.y.data()) == 0);
+                c.viol(isCPodes(sc.ik) && zr ? std::string(Judge::restartKey()) : "hang:stepTo-never-returns(evaluation-budget):" + tag, w.set("oracle", "evaluation budget"));
+            } else c.viol("exception:stepTo:" + tag + ":" + normMsg(e.what()), w);
             return;
         }
         c.obs(std::string("I:") + statusName(st));
@@ -964,6 +985,16 @@ void runManual(Ctx& c, Scen& sc, Built& B) {
             });
         }
 
+        bool staleState = false;
+        if (unmodifiedEventAt == t && st != Integrator::ReachedEventTrigger) {
+            // nothing touched the advanced state at tHigh and no time has passed: it must still be the same state
+            std::vector<double> y; copyY(integ.getState(), y);
+            staleState = !(y == seg.y);
+            c.require("continue:state-changed-without-integration:" + tag, !staleState, [&] {
+                return Json::obj().set("scen", sc.str()).set("status", statusName(st)).set("t", t).set("what", "state returned at tHigh after an event whose handlers changed nothing differs from the advanced state at the event").set("y", jvec(y)).set("yAtEvent", jvec(seg.y));
+            });
+        }
+        if (t != unmodifiedEventAt) unmodifiedEventAt = NaN;
         if (st == Integrator::ReachedEventTrigger) {
             ++nEvents;
             c.setPhase("I:event " + sc.str());
@@ -1087,6 +1118,7 @@ void runManual(Ctx& c, Scen& sc, Built& B) {
                 break;
             }
             if (sc.dispatchEvents && lowest < Stage::Report) { pendingStartCheck = true; yAfterHandlers = seg.y; }
+            else unmodifiedEventAt = tHigh;
             continue;
         }
 
@@ -1098,7 +1130,9 @@ void runManual(Ctx& c, Scen& sc, Built& B) {
                 for (size_t h = 0; h < S.hs.size(); ++h) {
                     const Wit& wt = S.wits[S.hs[h].wit];
                     const double ga = wt.sg(ta, ya.data()), gb = wt.sg(tAdv, yb.data());
-                    const bool definite = std::fabs(ga) > 10 * wt.gtol(ta, ya.data()) && std::fabs(gb) > 10 * wt.gtol(tAdv, yb.data());
+                    // (CPodes' step-end states and its dense output agree only to a fraction of its tolerance)
+                    const double cps = isCPodes(sc.ik) ? CPTOL * sc.acc * (1 + std::fabs(wt.kind == WTime ? ta : ya[wt.comp])) : 0.0;
+                    const bool definite = std::fabs(ga) > 10 * wt.gtol(ta, ya.data()) + cps && std::fabs(gb) > 10 * wt.gtol(tAdv, yb.data()) + cps;
                     const int sa = sgn(ga), sb = sgn(gb);
                     bool crossing = definite && sb != sa && monitored(wt, -sa);
                     c.require(std::string("persist:sign-change-across-one-step-not-reported:") + tag + ":" + wkName(wt.kind), !crossing, [&] {
@@ -1114,13 +1148,14 @@ void runManual(Ctx& c, Scen& sc, Built& B) {
             std::set<int> none;
             std::vector<double> y; copyY(integ.getState(), y);
             J.missing(seg, t, y, 0, none, "returned-state-passed-crossing");
-            if (t >= seg.ts) J.onTraj("returned-state", seg, t, y);
+            if (t >= seg.ts && !staleState) J.onTraj("returned-state", seg, t, y);
         }
         if (st == Integrator::EndOfSimulation) { break; }
         if (st == Integrator::ReachedReportTime && t >= tRep) { while (rp < sc.reps.size() && sc.reps[rp] <= t) ++rp; }
         if (st == Integrator::ReachedScheduledEvent) { while (sp < sc.scheds.size() && sc.scheds[sp] <= t) ++sp; }
     }
     c.obs("I:events", nEvents);
+    c.obs("evals", S.evals); if (S.evals > 200000) c.obs("cases-over-200k-evals");
     // the calls made through handleEvents obey the same log rules
     if (sc.dispatchEvents) {
         std::vector<double> yEnd; copyY(integ.getState(), yEnd);
@@ -1167,10 +1202,19 @@ void runStepper(Ctx& c, Scen& sc, Built& B) {
             Integrator::SuccessfulStepStatus st;
             try { st = ts.stepTo(target); }
             catch (const std::exception& e) {
-                c.viol("exception:TimeStepper.stepTo:" + tag + ":" + normMsg(e.what()), Json::obj().set("scen", sc.str()).set("what", firstLine(e.what(), 500)).set("t", integ.getAdvancedTime()));
+                Json w = Json::obj().set("scen", sc.str()).set("what", firstLine(e.what(), 500)).set("t", integ.getAdvancedTime()).set("evals", S.evals).set("calls", (long)S.log.size());
+                if (S.budgetExceeded) {
+                    // a loop inside the library: attribute to the restart situation if that is where it started
+                    Traj last; bool haveLast = !S.log.empty();
+                    if (haveLast) { last.ts = S.log.back().t; last.y = S.log.back().yout; } else last = seg0;
+                    last.mu = last.nu = 1;
+                    bool zr = false; for (auto& wt : S.wits) zr |= (wt.eval(last.ts, last.y.data()) == 0);
+                    c.viol(isCPodes(sc.ik) && zr ? std::string(Judge::restartKey()) : "hang:stepper-never-returns(evaluation-budget):" + tag, w.set("oracle", "evaluation budget").set("lastDispatch", last.ts));
+                } else c.viol("exception:TimeStepper.stepTo:" + tag + ":" + normMsg(e.what()), w);
                 return;
             }
             c.obs(std::string("S:") + statusName(st));
+            if (c.args.verbose) fprintf(stderr, "  ret %-26s t=%.17g tAdv=%.17g target=%.17g over=%d calls=%zu\n", statusName(st).c_str(), ts.getTime(), integ.getAdvancedTime(), target, (int)integ.isSimulationOver(), S.log.size());
             if (S.runaway) { over = true; break; }
             if (integ.isSimulationOver()) { over = true; }
             if (sc.ras && st == Integrator::ReachedEventTrigger) {
@@ -1202,6 +1246,7 @@ void runStepper(Ctx& c, Scen& sc, Built& B) {
         }
     }
     c.obs("S:events", nEvents);
+    c.obs("evals", S.evals); if (S.evals > 200000) c.obs("cases-over-200k-evals");
     bool terminatedByHandler = over && integ.isSimulationOver() && integ.getTerminationReason() == Integrator::EventHandlerRequestedTermination;
     bool finalReached = over && integ.isSimulationOver() && integ.getTerminationReason() == Integrator::ReachedFinalTime;
     std::vector<double> yEnd; copyY(ts.getState(), yEnd);
